@@ -442,6 +442,12 @@ async fn exec_ka_client(ops: Vec<Op>) -> Vec<Obs> {
             Op::LowSend(m) => { let msg = mk(m, cookie); to(a.send_message(&msg)).await }
             Op::LowRecv(d) => { r.deliver(&mk(d, cookie)).await; to(a.recv_message()).await }
         };
+        if let (Op::Call("recv_keepalive_response", d), Ok(())) = (op, &res) {
+            if d.ends_with("!cookie") {
+                emit_oracle_fail("keepalive/client/Server/ResponseKeepAlive/data",
+                    &format!("ops={} : a response whose cookie differs from the request's was accepted", coq_list(&ops, op_term)));
+            }
+        }
         let w = r.wire::<ka::Message>().await.and_then(|x| x.ok());
         if let Some(ka::Message::KeepAlive(c)) = &w { cookie = *c; }
         let sent = w.map(|m| ka_class(&m)).unwrap_or_default();
